@@ -194,7 +194,8 @@ Proof.
     split; [intros y E; inversion E; subst; lra|now right].
   - cbn [ext_min fold_left].
     set (o1 := Some (match o with Some m => pmin A m (fst b) | None => fst b end)).
-    destruct (IH o1 (or_introl ltac:(discriminate))) as (m & E & Hl & Ho & Hw).
+    assert (Hn1 : o1 <> None) by (unfold o1; discriminate).
+    destruct (IH o1 (or_introl Hn1)) as (m & E & Hl & Ho & Hw).
     exists m. split; [exact E|].
     assert (Hm1 : forall y, o1 = Some y -> y <= fst b /\ (forall x, o = Some x -> y <= x) /\ (y = fst b \/ o = Some y)).
     { intros y Ey. unfold o1 in Ey. inversion Ey as [Ey']. clear Ey. destruct o as [x|].
@@ -209,9 +210,7 @@ Proof.
     + intros x Ex. specialize (Ho1 x Ex). lra.
     + destruct Hw as [(b' & Ib & Eb)|Eo].
       * left. exists b'. split; [now right|exact Eb].
-      * inversion Eo as [Eo']. destruct Hw1 as [Hw1|Hw1].
-        -- left. exists b. split; [now left|]. rewrite <- Eo'. exact Hw1.
-        -- right. rewrite <- Eo'. exact Hw1.
+      * destruct (Hm1 m Eo) as (_ & _ & [Hx|Hx]); [left; exists b; split; [now left|exact Hx]|right; exact Hx].
 Qed.
 
 Lemma emax_spec (l : list bin) : forall o,
@@ -224,7 +223,8 @@ Proof.
     split; [intros y E; inversion E; subst; lra|now right].
   - cbn [ext_max fold_left].
     set (o1 := Some (match o with Some m => pmax A m (fst b) | None => fst b end)).
-    destruct (IH o1 (or_introl ltac:(discriminate))) as (m & E & Hl & Ho & Hw).
+    assert (Hn1 : o1 <> None) by (unfold o1; discriminate).
+    destruct (IH o1 (or_introl Hn1)) as (m & E & Hl & Ho & Hw).
     exists m. split; [exact E|].
     assert (Hm1 : forall y, o1 = Some y -> fst b <= y /\ (forall x, o = Some x -> x <= y) /\ (y = fst b \/ o = Some y)).
     { intros y Ey. unfold o1 in Ey. inversion Ey as [Ey']. clear Ey. destruct o as [x|].
@@ -239,9 +239,7 @@ Proof.
     + intros x Ex. specialize (Ho1 x Ex). lra.
     + destruct Hw as [(b' & Ib & Eb)|Eo].
       * left. exists b'. split; [now right|exact Eb].
-      * inversion Eo as [Eo']. destruct Hw1 as [Hw1|Hw1].
-        -- left. exists b. split; [now left|]. rewrite <- Eo'. exact Hw1.
-        -- right. rewrite <- Eo'. exact Hw1.
+      * destruct (Hm1 m Eo) as (_ & _ & [Hx|Hx]); [left; exists b; split; [now left|exact Hx]|right; exact Hx].
 Qed.
 
 (* merge(h1, h2) *)
@@ -340,7 +338,8 @@ Proof.
       - rewrite Ep in H. discriminate.
       - assert (Ipos : In p pos) by (apply filter_In; split; [exact Ip|now apply Z.ltb_lt]).
         intros E. destruct I1 as (_ & _ & _ & _ & _ & Hb). unfold bounds_ok in Hb. rewrite E in Hb. destruct Hb as [Hb _].
-        destruct (emin_spec pos (hmin s) (or_intror ltac:(intros Z0; rewrite Z0 in Ipos; destruct Ipos))) as (m & Em & _).
+        assert (Hpn : pos <> []) by (intros Z0; rewrite Z0 in Ipos; destruct Ipos).
+        destruct (emin_spec pos (hmin s) (or_intror Hpn)) as (m & Em & _).
         congruence. }
     rewrite F. cbn [bind].
     destruct I1 as (Hs1 & Hp1 & Hl1 & Hc1 & Hk1 & Hb1).
@@ -365,11 +364,71 @@ Proof.
   intros (Hs & Hp & Hl & Hc & Hk & Hb) Hne Hdc s'. unfold s', load.
   split; [|repeat split]. unfold Inv. cbn [bins cap hmin hmax].
   split; [exact Hs|]. split; [exact Hp|]. split; [lia|]. split; [lia|]. split.
-  - unfold cache_ok. cbn [diffs bins min_diff]. split; [exact Hne|]. split; [apply gaps_length|].
+  - unfold cache_ok. cbn [diffs bins min_diff]. split; [exact Hne|]. split; [apply (gaps_length fadd fsub fmul fdiv fofZ ftrunc)|].
     destruct (lmin A (gaps A (bins s))) as [m|] eqn:E.
-    + cbn. now apply lmin_InE.
+    + cbn. now apply (lmin_InE fadd fsub fmul fdiv fofZ ftrunc).
     + cbn. destruct (gaps A (bins s)); [reflexivity|discriminate].
   - unfold bounds_ok in *. cbn [bins hmin hmax]. exact Hb.
 Qed.
 
 End Ops.
+
+(* ---------- whole histories of updates on a fresh histogram ---------- *)
+Section Hist.
+Variables (fadd fsub fmul fdiv : Q -> Q -> Q) (fofZ : Z -> Q) (ftrunc : Q -> Z).
+Notation A := (AA fadd fsub fmul fdiv fofZ ftrunc).
+
+Theorem history_any (c : nat) (l : list bin) :
+  (2 <= c)%nat -> pos_counts l ->
+  exists s, feed A (empty c) l = Some s /\ Inv s /\ mass (bins s) = mass l /\ cap s = c /\
+    (l <> [] -> exists mn mx,
+        hmin s = Some mn /\ hmax s = Some mx /\
+        (forall b, In b l -> mn <= fst b <= mx) /\
+        (exists b, In b l /\ mn = fst b) /\ (exists b, In b l /\ mx = fst b) /\
+        within mn mx (bins s)).
+Proof.
+  intros Hc Hp.
+  destruct (feed_any fadd fsub fmul fdiv fofZ ftrunc l (empty c) (Inv_empty c Hc) Hp) as (s & F & I & M & C & N & X).
+  exists s. split; [exact F|]. split; [exact I|]. split; [exact M|]. split; [exact C|].
+  intros Hne.
+  destruct (emin_spec fadd fsub fmul fdiv fofZ ftrunc l None (or_intror Hne)) as (mn & Emn & Lmn & _ & Wmn).
+  destruct (emax_spec fadd fsub fmul fdiv fofZ ftrunc l None (or_intror Hne)) as (mx & Emx & Lmx & _ & Wmx).
+  cbn [hmin hmax empty] in N, X.
+  exists mn, mx. split; [congruence|]. split; [congruence|]. split; [|split; [|split]].
+  - intros b Ib. split; [now apply Lmn|now apply Lmx].
+  - destruct Wmn as [W|W]; [exact W|discriminate].
+  - destruct Wmx as [W|W]; [exact W|discriminate].
+  - destruct I as (_ & _ & _ & _ & _ & Hb).
+    assert (Hbn : bins s <> []).
+    { intros E. unfold bounds_ok in Hb. rewrite E in Hb. destruct Hb as [Hb _]. congruence. }
+    destruct (bounds_nonempty s Hbn Hb) as (m1 & m2 & E1 & E2 & Hw).
+    assert (m1 = mn) by congruence. assert (m2 = mx) by congruence. subst. exact Hw.
+Qed.
+
+End Hist.
+
+(* the mean of the bins is the mean of what was inserted - exact arithmetic *)
+Theorem history_mean (c : nat) (l : list bin) :
+  (2 <= c)%nat -> pos_counts l ->
+  exists s, feed QA (empty c) l = Some s /\ Inv s /\
+            moment (bins s) == moment l /\ mass (bins s) = mass l.
+Proof.
+  intros Hc Hp.
+  destruct (feed_moment l (empty c) (Inv_empty c Hc) Hp) as (s & F & I & Mo & Ma).
+  exists s. split; [exact F|]. split; [exact I|]. split.
+  - rewrite Mo. cbn [bins empty]. unfold moment at 1. cbn [fold_right]. ring.
+  - rewrite Ma. cbn [bins empty]. unfold mass at 1. cbn [fold_right]. lia.
+Qed.
+
+(* what the invariant says, spelled out *)
+Lemma Inv_meaning (s : @st Q) :
+  Inv s ->
+  StronglySorted (fun a b : bin => fst a < fst b) (bins s) /\
+  (length (bins s) <= cap s)%nat /\
+  Forall (fun b : bin => (1 <= snd b)%Z) (bins s) /\
+  (bins s <> [] -> exists mn mx, hmin s = Some mn /\ hmax s = Some mx /\
+                                 Forall (fun b : bin => mn <= fst b <= mx) (bins s)).
+Proof.
+  intros (Hs & Hp & Hl & _ & _ & Hb). split; [exact Hs|]. split; [exact Hl|]. split; [exact Hp|].
+  intros Hne. exact (bounds_nonempty s Hne Hb).
+Qed.
